@@ -59,6 +59,19 @@ def run(ctx):
         ok = fl.op == "call" and B.cname(fl) == "BlsSignCrypt::valid" and len(fl.a[1]) == 4
         same_v = ok and strip_sites(B.peel(fl.a[1][1])) == v_arg
         ctx.ob("E6.flag", "%s->decrypt" % g.key, ok and same_v, "flag handed to decrypt is valid(u, v, w, dst) over the same payload that is unmasked: %s" % show(fl, 4), where=where(g, bb))
+        # ... and what decrypt returns is what the caller returns: no filtering of the opened message afterwards
+        # (an empty message, a message starting with zeros etc. are messages like any other)
+        gr = strip_sites(gev.ret)
+        alts = list(gr.a[0]) if gr.op == "phi" else [gr]
+        dv = strip_sites(s.value)
+        bad = []
+        for a_ in alts:
+            if a_ == dv:
+                continue
+            if a_.op == "call" and B.cname(a_) == "CtOption::<T>::new" and len(a_.a[1]) == 2 and G.formula(a_.a[1][1], P) == G.FALSE:
+                continue
+            bad.append(show(a_, 3))
+        ctx.ob("E6.pass", "%s/result" % g.key, not bad, "%s returns the result of decrypt itself (or a constant rejection)%s" % (g.key, "" if not bad else "; other results: %s" % bad[:2]), where=where(g, bb))
         if ok:
             u, v, w, dst = [B.peel(x) for x in fl.a[1]]
             if g.key == "BlsSignCrypt::unseal":
@@ -112,7 +125,7 @@ def run(ctx):
             segs = B.nf(ev, hs[0].args[0])
             dstp = B.peel(hs[0].args[1])
             ok = len(segs) == 2 and segs[0][0] == "v" and segs[0][1].op == "call" and B.cname(segs[0][1]) == "GroupEncoding::to_bytes" and B.peel(segs[0][1].a[1][0]).op == "param" and B.peel(segs[0][1].a[1][0]).a[1] == "u" and segs[1][0] == "v" and segs[1][1].op == "param" and segs[1][1].a[1] == "v" and dstp.op == "param" and dstp.a[1] == "dst"
-        weak = not B.is_strong(segs)
+        weak = not B.is_strong(segs) and not B.clobbers(segs)
         ctx.ob("E5.w", "compute_w", ok or weak, "W input = %s under the caller's tag (pinned: to_bytes(U) ‖ V)" % B.show_nf(segs), where=where(f), weak=weak, sample={"w_input": B.show_nf(segs)})
     # keystream
     PR.check_xof_mask(ctx, "E5.keystream", P, "BlsSignCrypt::compute_v", "uar", "r", "Shake128", True)
